@@ -96,12 +96,16 @@ def cases(ctx):
 def check(o, conf, extra=()):
     exp = T.expected_ops(conf)
     try:
-        blocks_direct = conf_dict_to_tlv(dict(conf))
+        live = dict(conf)          # ONE dictionary object handed to every call, as a caller would
+        extra_live = list(extra)
+        blocks_direct = conf_dict_to_tlv(live)
         f = Bf3File({}, [])
         if extra:
-            f.set_config(dict(conf), list(extra))
+            f.set_config(live, extra_live)
         else:
-            f.set_config(dict(conf))
+            f.set_config(live)
+        if conf_dict_to_tlv(live) != blocks_direct:
+            o.viol("blob|second-call-differs", "conf_dict_to_tlv gives another result for the same dictionary object after set_config")
     except Exception as e:
         big = max([T.entry_size(it) for it in conf.items()] or [0])
         o.cls = "encode-raises"
